@@ -13,6 +13,8 @@ Record case := mk_case {
   ob_lastis : bool;        (* errors.Is(result.Error, the error value injected last) *)
   ob_tbl : list row;       (* all tables afterwards *)
   ob_mem : list Z;         (* tags of the in-memory records afterwards (query: the loaded records) *)
+  ob_kids : list Z;        (* query with Preload: tags of the Kid / Pet records found in the loaded records *)
+  ob_pets : list Z;
   ob_panic : bool
 }.
 
@@ -107,11 +109,18 @@ Fixpoint prefix_b (a b : list hev) : bool :=
   end.
 
 (* all the (type, pipe, tag) records whose hooks the operation owes *)
-Definition owed (o : op) (mem : list Z) : list (ty * pipe * Z) :=
+Definition owed (o : op) (mem kids pets : list Z) : list (ty * pipe * Z) :=
   let p := op_pipe o in
   match p with
   | PiQuery => map (fun g => (o_ty o, PiQuery, g)) mem
+               ++ (if x_preload (o_x o)
+                   then map (fun g => (kid_ty o, PiQuery, g)) kids ++ map (fun g => (pet_ty o, PiQuery, g)) pets
+                   else [])
   | PiDelete => map (fun r => (o_ty o, PiDelete, m_tag r)) (o_recs o)
+                (* Delete with Select(<has-many>): the nested Delete runs on one blank in-memory record *)
+                ++ (if is_nil (o_recs o) then []
+                    else if x_delassoc (o_x o) =? 1 then [(kid_ty o, PiDelete, 0)]
+                    else if x_delassoc (o_x o) =? 2 then [(pet_ty o, PiDelete, 0)] else [])
   | _ => map (fun r => (o_ty o, p, m_tag r)) (o_recs o)
          ++ map (fun r => (boss_ty o, PiCreate, m_tag r)) (a_boss (o_assocs o))
          ++ map (fun r => (kid_ty o, PiCreate, m_tag r)) (a_kids (o_assocs o))
@@ -179,7 +188,14 @@ Definition vals_ok (o : op) (hs : list hev) (tb : list row) : bool :=
                       | None => true
                       end) recs in
   match op_pipe o with
-  | PiCreate => per_rec (o_ty o) TRecs (o_recs o)
+  | PiCreate =>
+      if x_setall (o_x o) && negb (match sh_cont (o_shape o) with CStruct => true | _ => false end)
+      then (* SetColumn(..., true) sets every record of the slice: the last value asked for wins for all *)
+        match last_set o (fun e => snd (fst e) =? ty_id (o_ty o)) hs with
+        | Some v => forallb (fun r => row_has TRecs (m_tag r) v tb) (o_recs o)
+        | None => true
+        end
+      else per_rec (o_ty o) TRecs (o_recs o)
   | PiUpdate =>
       match o_kind o with
       | OSave => per_rec (o_ty o) TRecs (o_recs o)
@@ -203,7 +219,7 @@ Definition spec_holds (c : case) : bool :=
   let o := c_op c in
   let hs := hooks_of (ob_tr c) in
   let nh := Z.of_nat (length hs) in
-  let ow := owed o (ob_mem c) in
+  let ow := owed o (ob_mem c) (ob_kids c) (ob_pets c) in
   let failing := filter (fun k => (0 <=? k) && (k <? nh)) (o_fails o) in
   let write := match op_pipe o with PiQuery => false | _ => true end in
   let must_tx := write && match o_txmode o with TxSkipDefault => false | _ => true end in
